@@ -165,7 +165,33 @@ func NewSimTCPConn(s SimConn) *TCPConn { return &TCPConn{conn{&netFD{sim: s, net
 // SimDialHook, when set, serves every Dial.
 var SimDialHook func(ctx context.Context, network, address string, laddr Addr) (Conn, error)
 '''
+s += '''
+// SimUDP is the extra method a simulated datagram socket provides.
+type SimUDP interface {
+	SimConn
+	ReadFromUDP(b []byte) (int, *UDPAddr, error)
+}
+
+// NewSimUDPConn wraps a simulated datagram socket in a *UDPConn.
+func NewSimUDPConn(s SimUDP) *UDPConn { return &UDPConn{conn{&netFD{sim: s, net: "udp"}}} }
+
+// SimListenPacketHook, when set, serves every ListenConfig.ListenPacket.
+var SimListenPacketHook func(ctx context.Context, network, address string) (PacketConn, error)
+
+type simRawConn struct{}
+
+func (simRawConn) Control(f func(fd uintptr)) error  { return nil }
+func (simRawConn) Read(f func(fd uintptr) bool) error  { return syscall.EINVAL }
+func (simRawConn) Write(f func(fd uintptr) bool) error { return syscall.EINVAL }
+'''
 wr("net/net.go", s)
+u = rd("net/udpsock.go")
+for m, ret in {"SyscallConn": "simRawConn{}, nil", "ReadFromUDP": "c.fd.sim.(SimUDP).ReadFromUDP(b)"}.items():
+    pat = re.compile(r"(func \(c \*UDPConn\) %s\([^)]*\) [^{]*\{\n)" % m)
+    if len(pat.findall(u)) != 1:
+        die("net/udpsock.go anchor UDPConn.%s" % m)
+    u = pat.sub(lambda mo: mo.group(1) + "\tif c != nil && c.fd != nil && c.fd.sim != nil {\n\t\treturn %s\n\t}\n" % ret, u)
+wr("net/udpsock.go", u)
 t = rd("net/tcpsock.go")
 for m, ret in {"SyscallConn": "nil, syscall.EINVAL", "CloseRead": "nil", "CloseWrite": "nil", "SetLinger": "nil",
                "SetKeepAlive": "nil", "SetKeepAlivePeriod": "nil", "SetNoDelay": "nil"}.items():
@@ -178,7 +204,11 @@ d = rd("net/dial.go")
 a = "func (d *Dialer) DialContext(ctx context.Context, network, address string) (Conn, error) {\n"
 if d.count(a) != 1:
     die("net/dial.go anchor DialContext")
-wr("net/dial.go", d.replace(a, a + "\tif h := SimDialHook; h != nil {\n\t\treturn h(ctx, network, address, d.LocalAddr)\n\t}\n"))
+d = d.replace(a, a + "\tif h := SimDialHook; h != nil {\n\t\treturn h(ctx, network, address, d.LocalAddr)\n\t}\n")
+a = "func (lc *ListenConfig) ListenPacket(ctx context.Context, network, address string) (PacketConn, error) {\n"
+if d.count(a) != 1:
+    die("net/dial.go anchor ListenPacket")
+wr("net/dial.go", d.replace(a, a + "\tif h := SimListenPacketHook; h != nil {\n\t\treturn h(ctx, network, address)\n\t}\n"))
 
 # ---------------------------------------------------------------- harness sources into the module
 n_h = 0
